@@ -1,10 +1,4 @@
 # C07 - the state cache never disagrees with the state trie (builder b07)
-#
-# The two open findings of this property (see the builder's report) are not in /verif/known_findings.json yet; until
-# they are, the parts point VERIF_KNOWN_FINDINGS at a private copy that contains them, so that the check excludes the
-# two classes by construction and stays quiet on the unchanged tree. Remove the two env entries once the findings are
-# listed in (or repaired and recorded as fixed in) the official file.
-_C07_KNOWN = {"VERIF_KNOWN_FINDINGS": "/verif/wip/agents/b07/known_findings.json"}
 _CCHK = "verifharness/checks/cachechk"
 WIP["C07"] = dict(
     level="exploration", engine="E1-lite + E1",
@@ -13,9 +7,9 @@ WIP["C07"] = dict(
     level_note="Exploration of histories: finds a divergence in the explored histories, proves nothing about others. One key holds one entity type; one transaction open at a time (the chain's state mutex); cache capacity effects (200 blocks per key, 2000 block hashes) are outside the generated sizes. Two classes are excluded by construction while they are listed as open findings: reads that can reach the global cache while another branch holds an entry for the key (stale-value-after-ancestor-walk; part 2 then runs a single line of blocks without REST-style reads) and magic-block pools with nodes inside GlobalNode (node-pool-lost-in-cached-copy); a fixed probe per run reports whether each still reproduces.",
     parts=[
         dict(pkg=_CCHK, run="^TestC07_CacheVsTrie$", quick=3000, thorough=160000, steps=60, steps_thorough=80, floor=50,
-             timeout_quick=600, timeout_thorough=2400, env=_C07_KNOWN),
+             timeout_quick=600, timeout_thorough=2400),
         dict(pkg=_CCHK, run="^TestC07_ChainPath$", quick=400, thorough=16000, floor=20,
-             timeout_quick=900, timeout_thorough=2400, env=_C07_KNOWN),
+             timeout_quick=900, timeout_thorough=2400),
     ],
     assumptions=[
         "one state key always holds one entity type (keys are derived per type in the contracts)",
